@@ -82,7 +82,7 @@ func genPrefix(T *verifsim.Tape) string {
 			return "::ffff:10.1.2.0/120" // IPv4-mapped literal
 		}
 		l := ksV6Lens[T.Choose(len(ksV6Lens))]
-		if T.Chance(1, 80) && !ksSkip("v6len0") {
+		if T.Chance(1, 1500) && !ksSkip("v6len0") {
 			l = 0 // rare on purpose: hits the recorded defect "v6-prefix-len-0"
 		}
 		if l == 128 && T.Chance(1, 2) {
@@ -209,7 +209,7 @@ func genRuleText(T *verifsim.Tape, o *ksOutTable, maxRules int) string {
 		var conds []ksGenCond
 		out := ""
 		// negated neighbours are rare on purpose: they hit the recorded defect "negated-singleton-merge"
-		if len(prev) == 1 && T.Chance(1, 4) && (!prev[0].not || (T.Chance(1, 12) && !ksSkip("negmerge"))) {
+		if len(prev) == 1 && T.Chance(1, 4) && (!prev[0].not || (T.Chance(1, 100) && !ksSkip("negmerge"))) {
 			// neighbour of the same shape: same function, negation and outbound, other values
 			fidx := map[string]int{"dip": 0, "dport": 1, "l4proto": 2, "sip": 3, "sport": 4, "ipversion": 5, "domain": 6, "mac": 7, "pname": 8, "dscp": 9, "ip": 10, "port": 11}[prev[0].fn]
 			c := genCond(T, fidx)
